@@ -504,4 +504,47 @@ theorem ctor_raising (env : Env) (fuel k : Nat) (src : Stream) (g : PG) :
   · split <;> exact h
   · exact h
 
+/-! ### what the hand-back discipline depends on: flags and child links, not on what a production accepts -/
+
+def shapeNode : Node → Node
+  | .prod _ fl act => .prod [] fl act
+  | n => n
+
+def shapeSpec (sp : Spec) : Spec := { sp with tb := sp.tb.map shapeNode, postErr := false }
+
+/-- an environment with the `match` callbacks (and the owners' error reports) forgotten -/
+def shape (env : Env) : Env := env.map shapeSpec
+
+theorem partof_shapeSpec (sp : Spec) : (shapeSpec sp).partof = sp.partof := by
+  unfold Spec.partof shapeSpec
+  simp only [List.any_map]
+  congr 1
+  funext n
+  cases n <;> simp [shapeNode]
+
+theorem envPartof_shape (env : Env) (k : Nat) : envPartof (shape env) k = envPartof env k := by
+  unfold envPartof shape
+  rw [List.getElem?_map]
+  cases env[k]? with
+  | none => rfl
+  | some sp => simp [partof_shapeSpec]
+
+theorem wfNodeHB_shape (env : Env) (n : Node) : wfNodeHB (shape env) (shapeNode n) = wfNodeHB env n := by
+  cases n with
+  | prod acc fl act =>
+    cases act <;> simp [shapeNode, wfNodeHB, envPartof_shape]
+  | seq ch mn mx => simp [shapeNode, wfNodeHB]
+  | choice ch o => simp [shapeNode, wfNodeHB]
+
+theorem wfEnv_shape (env : Env) : wfEnv (shape env) = wfEnv env := by
+  unfold wfEnv
+  conv => lhs; unfold shape
+  rw [List.all_map]
+  congr 1
+  funext sp
+  simp only [Function.comp, shapeSpec, List.all_map]
+  congr 1
+  funext n
+  exact wfNodeHB_shape env n
+
 end CssVerif.GProd
